@@ -96,6 +96,26 @@ def run(ctx):
             s = U.gen_system(rng, max_entries=3, allow_order=(1, 1, 2), kinds=("lin", "nonlin", "coupled", "off", "lin"), nparams=rng.choice([0, 1, 2]))
             if U.offsets(s)[1] <= 4 and not any(e["order"] > 1 and any(not any(a[0] == "v" for a, _ in t["pows"]) for t in e["rhs"]) for e in s["entries"]):
                 systems.append(s)
+    # cascades: a chain of linear variables of depth 2-3 hanging below a nonlinear (or offset) one, plus an independent
+    # linear variable; compared under EVERY entry order (the worklist's result must not depend on the order of discovery)
+    def cascade():
+        T = c01.T
+        names = U.pick_names(rng, 4)
+        depth = rng.choice([2, 3])
+        top_nonlinear = rng.random() < 0.7
+        ents = []
+        top = [T(rng.choice([-1, Fraction(-1, 2)]), [[["v", 0], rng.choice([2, 3])]])] if top_nonlinear else [T(-1, [[["v", 0], 1]]), T(rng.choice([1, 3]), [])]
+        ents.append(top)
+        for i in range(1, 4):
+            terms = [T(rng.choice([-1, -2, Fraction(-1, 4)]), [[["v", i], 1]])]
+            if i <= depth:
+                terms.append(T(rng.choice([1, 2]), [[["v", i - 1], 1]]))
+            ents.append(terms)
+        return {"entries": [{"name": names[i], "order": 1, "kind": "ode", "rhs": U.merge_terms(ents[i]), "ivs": [U.coef_str(rng.choice([1, 2, Fraction(1, 2)]))], "single_iv": True, "gen_kind": "cascade"}
+                            for i in range(4)], "params": [], "funs": [], "all_perms": True}
+    from fractions import Fraction
+    for _ in range(1 if quick else 6):
+        systems.append(cascade())
     tasks, groups = [], []          # groups: list of (kind, base_index, [twin indices], description)
     def add(ind, canon, values, flags=None):
         tasks.append({"fn": "sysimpl.run_twin", "indict": ind, "canon": canon, "values": values, "flags": flags or {}, "api_timeout": 30, "timeout": 100})
@@ -118,7 +138,7 @@ def run(ctx):
         m = len(s2["entries"])
         if m > 1:
             allp = list(itertools.permutations(range(m)))[1:]
-            for p in (allp if len(allp) <= 5 and not quick else rng.sample(allp, min(len(allp), 2))):
+            for p in (allp if (len(allp) <= 5 and not quick) or s.get("all_perms") else rng.sample(allp, min(len(allp), 2))):
                 ps = c03.permute_system(s2, p)
                 for e_new, i_old in zip(ps["entries"], p):
                     for b in ("upper_bound", "lower_bound"):
